@@ -20,6 +20,7 @@ import (
 	"strings"
 	"sync/atomic"
 	"time"
+	"unicode/utf16"
 
 	saml2 "github.com/russellhaering/gosaml2"
 	"github.com/russellhaering/gosaml2/types"
@@ -721,6 +722,20 @@ func c09Shapes(w *World, thorough, race bool) []c09shape {
 		"doctype-billion":      `<!DOCTYPE r [<!ENTITY a "aaaaaaaaaa"><!ENTITY b "&a;&a;&a;&a;&a;&a;&a;&a;"><!ENTITY c "&b;&b;&b;&b;&b;&b;&b;&b;">]>` + hdr + `&c;` + ftr,
 		"bom":                  "\xef\xbb\xbf" + hdr + ftr,
 		"utf16-bom":            "\xff\xfe<\x00a\x00/\x00>\x00",
+		"utf16le-bom-odd":      "\xff\xfe<\x00a\x00/\x00>",
+		"utf16be-bom-odd":      "\xfe\xff\x00<\x00a\x00/\x00>\x00",
+		"utf16le-bom-only":     "\xff\xfe",
+		"utf16be-bom-one":      "\xfe\xff<",
+		"utf16le-lone-high":    "\xff\xfe<\x00\x00\xd8>\x00",
+		"utf16be-message":      "\xfe\xff" + utf16be(hdr+ftr),
+		"utf16le-message-odd":  "\xff\xfe" + utf16le(hdr+ftr) + "\x00",
+		"utf32le-bom":          "\xff\xfe\x00\x00<\x00\x00\x00",
+		"utf32be-bom-odd":      "\x00\x00\xfe\xff\x00\x00\x00<\x00",
+		"utf7-bom":             "+/v8-<a/>",
+		"utf1-bom":             "\xf7\x64\x4c<a/>",
+		"ebcdic-decl":          "\x4c\x6f\xa7\x94\x93",
+		"bom-twice":            "\xef\xbb\xbf\xef\xbb\xbf" + hdr + ftr,
+		"bom-cut":              "\xef\xbb",
 		"nul-bytes":            hdr + "\x00\x00" + ftr,
 		"invalid-utf8":         hdr + "<saml:Issuer>\xff\xfe\xc0\x80</saml:Issuer>" + ftr,
 		"pi-everywhere":        `<?a b?>` + hdr + `<?c d?>` + ftr + `<?e f?>`,
@@ -768,4 +783,20 @@ func c09Adverts(w *World) []c09advert {
 		{"same-key-other-cert", enc(sameKey)}, {"sp-cut", enc(sp[:len(sp)/2])}, {"sp-plus-trailing", enc(append(append([]byte{}, sp...), 0, 1, 2))}, {"not-base64", "***"}, {"sp-folded", folded},
 		{"pem-text", string(pem.EncodeToMemory(&pem.Block{Type: "CERTIFICATE", Bytes: sp}))}, {"der-garbage", enc([]byte{0x30, 0x82, 0xff, 0xff, 0x01})}, {"empty-sequence", enc([]byte{0x30, 0x00})}}
 	return c09AdvertCache
+}
+
+func utf16le(s string) string {
+	var b []byte
+	for _, u := range utf16.Encode([]rune(s)) {
+		b = append(b, byte(u), byte(u>>8))
+	}
+	return string(b)
+}
+
+func utf16be(s string) string {
+	var b []byte
+	for _, u := range utf16.Encode([]rune(s)) {
+		b = append(b, byte(u>>8), byte(u))
+	}
+	return string(b)
 }
